@@ -645,6 +645,12 @@ func refcountCase(c *mon.Case, prop string, idx int) {
 			if rel != nil && cs.err == nil {
 				cs.holder = w.newHolder(cs.kind, false)
 				cs.holder.val.Store(cs.val)
+				// the value handed out is pinned by the consumer's reference: it may only have been released
+				// already if it was invalidated or the context changed meanwhile
+				if g := w.genOf(cs.val); g != nil && !w.sameValue && g.relCount.Load() != 0 &&
+					g.invalid.Load() == 0 && w.ctxEpoch.Load() == g.ctxEpoch && g.ctxEpoch%2 == 0 {
+					c.Violate("consumer", "refcount-consumer-got-released-value", "%s of consumer %d returned g%d, whose release function had already run (at %d) although it was neither invalidated nor the context changed: the returned reference does not protect the value", cs.kind, cs.id, g.g, g.relStamp.Load())
+				}
 			}
 			cs.ret = c.Rec(name, fmt.Sprint("ret ", cs.kind, " val ", valID(cs.val), " err ", cs.err), nil)
 			cs.returned.Store(true)
